@@ -321,6 +321,13 @@ def lock_cases(ctx):
         def __getattr__(self, name):
             return getattr(os, name)
 
+        def remove(self, p):
+            if str(p).endswith(".lock") or str(p).endswith("status.csv"):
+                log.append("unlink:" + os.path.basename(str(p)))
+            return os.remove(p)
+
+        unlink = remove
+
     class _Path:
         def __getattr__(self, name):
             return getattr(os.path, name)
@@ -346,7 +353,7 @@ def lock_cases(ctx):
         fake_os = _OS()
         fake_os.path = _Path()
         cmod.os = fake_os
-        for rep in range(6):
+        for rep in range(8):
             # rounds 2 and 3: the lock cannot be had within the time-out; rounds 4 and 5: the graph keeps its
             # scripts in a temporary directory (--usetmp) - the table and its lock stay where the reader looks
             RecLock.held_elsewhere = rep in (2, 3)
@@ -354,6 +361,11 @@ def lock_cases(ctx):
             if rep == 4:
                 import tempfile
                 g._tmp_dir = tempfile.mkdtemp(dir=ctx.scratch)
+            if rep == 6:
+                # rounds 6 and 7: nothing is running any more (the table of a finished study is read as any other)
+                g._tmp_dir = ""
+                S.do_poll(g, "OK", [(1, "FINISHED")])
+                S.do_poll(g, "OK", [(2, "TIMEDOUT")])
             del log[:]
             del lock_paths[:]
             g.write_status(root)
@@ -375,6 +387,10 @@ def lock_cases(ctx):
                 want = {"writer": ["acquire", "open:w+", "write", "close", "release"],
                         "reader": ["exists", "acquire", "open:r", "read", "close", "release"],
                         "writer-timeout": ["timeout"], "reader-timeout": ["exists", "timeout"]}[who]
+                gone = [o_ for o_ in tr if o_.startswith("unlink:")]
+                if gone:
+                    mon.append(("no-torn-read", "%s removes %s: whoever holds the lock at that moment and the next "
+                                "one to ask for it no longer exclude each other (%s)" % (who, gone, tr)))
                 if tr != want:
                     # which clause of the property is at stake: the file is
                     # touched outside the lock
